@@ -111,14 +111,14 @@ class Prop:
         # every copy API called with its arguments OMITTED (deep / add_self / before defaults), also to every place inside the
         # source's own branch (legal for shallow copies); and targets that hold ANOTHER object under the source's data_ids
         # (the target is a Tree.copy() of the source whose nodes got new data objects under their old data_ids)
-        hist_groups += list(M.gen_default_groups(3 if quick else 4))
+        hist_groups += list(M.gen_default_groups(3))
         hist_groups += list(M.gen_versioned_groups(3))
         for g in hist_groups:
             for i in range(0, len(g["alts"]), 64):
                 yield dict(kind="alts", univ=g["univ"], setup=g["setup"], alts=g["alts"][i:i + 64], label=g["label"])
         groups = groups + hist_groups
         # histories on small sources: every k-th copy alternative followed by a mutation tail
-        stride = 61 if quick else 22
+        stride = 61 if quick else 26
         j = 0
         for g in groups:
             if g["n"] < 2:
